@@ -6,6 +6,7 @@
 import EinoV.Model.C19
 import EinoV.Gen.FactsC19
 import EinoV.Expected.C19
+import EinoV.Proofs.C02Settled
 
 namespace EinoV.C19
 open EinoV.Gen
@@ -70,5 +71,37 @@ theorem replaced_copy_leaks_without_close : (distribute true false 1 1 1 1).leak
 example : distribute true true 2 1 3 0 = { created := 6, toBranches := 1, toSuccessors := 5, closed := 0 } := by decide
 example : (distribute true true 1 1 0 0) = { created := 3, toBranches := 1, toSuccessors := 1, closed := 1 } := by decide
 example : (distribute true true 1 1 1 1) = { created := 3, toBranches := 1, toSuccessors := 1, closed := 1 } := by decide
+
+/-! ### run level: no routed value is left waiting when the run returns -/
+
+open EinoV.Engine EinoV.Engine.DagRun in
+/-- **no_routed_value_left_waiting.** In a run of a well-formed acyclic all-predecessor runner
+    that returns a value, under any fair completion schedule: every value a completed node routed
+    as data to a node END (transitively) depends on has reached a node that *ran* — then the value
+    is part of the input that node consumed (`C02.dag_input_is_exact`) — or that is *skipped* —
+    then the channel closes the stored values (fact `skippedChannelClosesValues`).  No stream
+    handed to such a successor is still parked in a channel when the run returns.  (Values routed
+    to nodes END does not depend on are outside this statement: the property's "every produced
+    value has a consumer".) -/
+theorem no_routed_value_left_waiting {V} (ops : ValOps V) (r : Runner V) (wf : DagWF r)
+    (hs : lookupList START r.ctrlPreds = []) (sched : Sched V) (hf : sched.Fair) (x v : V)
+    (hres : (runS ops r sched x).result = .ok v) (p : Key) (o : V) (n : Key)
+    (_hp : (p, o) ∈ histOf r x (runS ops r sched x).trace.reverse) (_hr : RoutesD r p o n)
+    (ha : AncEnd r n) :
+    (∃ o', (n, o') ∈ histOf r x (runS ops r sched x).trace.reverse) ∨
+      SkippedIn r (histOf r x (runS ops r sched x).trace.reverse) n :=
+  run_ancestors_settled ops r wf hs sched hf x v hres n ha
+
+open EinoV.Engine EinoV.Engine.DagRun in
+/-- **no_routed_value_left_waiting_workflow.** The same for the eager loop of Workflows (history of
+    the submitted tasks), for every completion order. -/
+theorem no_routed_value_left_waiting_workflow {V} (ops : ValOps V) (r : Runner V) (wf : DagWF r)
+    (hs : lookupList START r.ctrlPreds = []) (pick : Pick V) (x v : V)
+    (hres : (runEager ops r pick x).result = .ok v) (p : Key) (o : V) (n : Key)
+    (_hp : (p, o) ∈ histOf r x (runEager ops r pick x).batches.reverse) (_hr : RoutesD r p o n)
+    (ha : AncEnd r n) :
+    (∃ o', (n, o') ∈ histOf r x (runEager ops r pick x).batches.reverse) ∨
+      SkippedIn r (histOf r x (runEager ops r pick x).batches.reverse) n :=
+  runEager_ancestors_settled ops r wf hs pick x v hres n ha
 
 end EinoV.C19
